@@ -2,7 +2,7 @@
 EXTENDS TextCodecs, Json
 CONSTANTS MaxM, Empties
 VARIABLE c
-Cases == {[kind |-> "text", g |-> x] : x \in Supported(MaxM) \cup WithDuplicates \cup Extremes \cup (IF Empties THEN WithEmpties(MaxM) ELSE {})}
+Cases == {[kind |-> "text", g |-> x] : x \in Supported(MaxM) \cup WithDuplicates \cup ClosedLines \cup Extremes \cup (IF Empties THEN WithEmpties(MaxM) ELSE {})}
          \cup {[kind |-> "text", g |-> G("GeometryCollection", << G("Point", PtK(1)) >>)], [kind |-> "text", g |-> G("Bounds", <<PtK(1), PtK(2)>>)],
                [kind |-> "text", g |-> G("MultiPoint", PathK(2, 2))],
                [kind |-> "nonfinite", g |-> G("Point", <<1, 99>>)], [kind |-> "nonfinite", g |-> G("LineString", <<PtK(1), <<98, 2>>>>)],
